@@ -56,7 +56,10 @@ impl<'a> Gen<'a> {
     fn doc_block(&mut self, params: &[&str]) {
         if self.rng.chance(1, 2) {
             self.ind();
-            let d = *self.rng.pick(&["--- does things", "--- **bold** `code` and a [link](http://x)", "--- 说明 😀", "---"]);
+            let d = *self.rng.pick(&["--- does things", "--- **bold** `code` and a [link](http://x)", "--- 说明 😀", "---",
+                "--- Returns `code` here.", "--- *em* then **strong**`c`*e2*", "--- - item one\n--- - item `two`\n--- - *three*",
+                "--- ```lua\n--- local x = f(1)\n--- ```\n--- after the fence", "--- See [a](b)[c](d) and <http://x>.", "--- :ref:`target` and ``lit`` text",
+                "--- 1. first\n--- 2. second **b**", "--- a\\_b \\*c\\* `d`e`f`", "--- @*param* not a tag `x`"]);
             self.out.push_str(d);
             self.out.push('\n');
         }
@@ -64,7 +67,8 @@ impl<'a> Gen<'a> {
             if self.rng.chance(3, 4) {
                 self.ind();
                 let t = self.ty();
-                self.out.push_str(&format!("---@param {} {} the {}\n", p, t, p));
+                let d = *self.rng.pick(&["the", "the `code`", "*em* **st**", "see [l](u)", "- a\n--- - b"]);
+                self.out.push_str(&format!("---@param {} {} {} {}\n", p, t, d, p));
             }
         }
         if self.rng.chance(1, 2) {
@@ -215,6 +219,27 @@ impl<'a> Gen<'a> {
     }
 }
 
+/// "split any token sequence across lines": line breaks (optionally with blanks) inserted behind completion
+/// trigger characters of a valid program, so cursor-dependent providers see their context spread over lines
+pub fn split_lines(rng: &mut Rng) -> String {
+    let n = rng.range(1, 6);
+    let mut fork = rng.fork();
+    let t = Gen::new(&mut fork).program(n);
+    let extra = *rng.pick(&["", "local t = {1,2,3}\nt[#]\n", "t[#t]\n", "f(a, b)\n", "a.b:c('x')\n", "local m = require('mod.sub')\n", "---@param a string\n", "x = #t + 1\n"]);
+    let t = format!("{t}{extra}");
+    let cs: Vec<char> = t.chars().collect();
+    let mut out = String::new();
+    let mut budget = rng.range(1, 4);
+    for (i, c) in cs.iter().enumerate() {
+        out.push(*c);
+        if budget > 0 && matches!(c, '#' | '[' | '(' | '.' | ':' | '\'' | '"' | ',' | '@' | '=' | '{') && rng.chance(1, 3) && i + 1 < cs.len() {
+            out.push_str(*rng.pick(&["\n", "\r\n", "  \n ", " \r\n  ", "\n\n"]));
+            budget -= 1;
+        }
+    }
+    out
+}
+
 pub fn valid(rng: &mut Rng) -> String {
     let n = rng.range(1, 9);
     let mut fork = rng.fork();
@@ -297,6 +322,12 @@ pub fn fixed() -> Vec<String> {
         "--- desc **md**\n--- ```lua\n--- local x = 1\n--- ```\n---@param cb fun(a: string): boolean callback\nlocal function g(cb) return cb(\"é😀\") end\ng(function(a) return a == '' end)\n".into(),
         "local a = 1\r\nlocal b = a\r\n\r\nfunction f()\r\n  return a + b\r\nend\r\n".into(),
         "local a😀 = '😀😀'\nlocal é = a😀 .. '名前'\n".into(),
+        "local t = {1,2,3}\nt[#\n]\n".into(),
+        "local t = {1,2,3}\nt[#  \r\n ]\nt[# ]\nt[#]\n".into(),
+        "---@class A\n---@field x number\nlocal a = {}\nlocal function f(p, q) end\nf(\na.\na:\nlocal m = require('\n".into(),
+        "---@\n---@param \n---@type \n---@class\nlocal z = 1\n---@field".into(),
+        "--- Returns `code` here.\n--- *em* **strong** [link](http://x) ``lit``\n--- - item one\n--- - item `two`\n---@param a string the `a` *value*\n---@return number # **count** of `a`\nlocal function f(a) return #a end\n".into(),
+        "--- ```lua\n--- local x = 1\n--- ```\n--- tail `c`**b**\nlocal s = \"a `b` c\"\nlocal u = 'x' .. \"y\"\n".into(),
         "if x then\n  for i = 1, 2 do\n    while true do\n      repeat\n        local q = i\n      until q\n    end\n  end\nend\n".into(),
     ]
 }
